@@ -2960,6 +2960,13 @@ func fileFromReader(name string, reader io.Reader) (*File, error) {
 // References:
 //   - https://datatracker.ietf.org/doc/html/rfc2183
 func fileFromReadSeeker(name string, reader io.ReadSeeker) *File {
+	// The content of the file is what the reader provides from its current position on. After
+	// each write we need to go back to that position and not to the start of the underlying data,
+	// otherwise any further rendering would include what had been read before
+	start, err := reader.Seek(0, io.SeekCurrent)
+	if err != nil {
+		start = 0
+	}
 	return &File{
 		Name:   name,
 		Header: make(map[string][]string),
@@ -2968,7 +2975,7 @@ func fileFromReadSeeker(name string, reader io.ReadSeeker) *File {
 			if err != nil {
 				return readBytes, err
 			}
-			_, err = reader.Seek(0, io.SeekStart)
+			_, err = reader.Seek(start, io.SeekStart)
 			return readBytes, err
 		},
 	}
